@@ -15,6 +15,32 @@ CHECKS = {
         design_ref='DESIGN.md section 4 C02',
         note=('Trusts: the observation hook hands over the model that is later printed; reference integrator restates the '
               'pinned last-slice rule; fork-per-execution isolation.')),
+    'C01': dict(
+        engine='xplore',
+        technique='bounded exhaustive input-space exploration of the real pipeline against an independent levelized-cost reference (all economic model x end-use x plant x reservoir combinations, deviation-bounded alphabets)',
+        category='exploration',
+        text=('Every execution in the complete product 3 economic models x 32 end-use/plant pairs x 4 reservoir models x shapes, '
+              'plus all single deviations (pairs in thorough) over rate/cost alphabets and structural deviations (add-ons, '
+              'redrilling, fixed totals, carbon), is compared at 1e-9 with an independent implementation of the branch table and '
+              'with the printed report lines.'),
+        design_ref='DESIGN.md section 4 C01',
+        note='Trusts the branch table restated in vf/oracles/econ_ref.py as the documented definition; reported other annual costs taken as reported.'),
+    'C03': dict(
+        engine='xplore',
+        technique='bounded exhaustive input-space exploration (all override/adjustment/incentive deviations, pairs over interaction sets, correlation x depth grid) against an independent cost roll-up',
+        category='exploration',
+        text=('Roll-up identities for capital and O&M totals, exact use of user-fixed figures, ITC/grant/fee arithmetic and '
+              'per-well cost against an own copy of the published cost curves, on every execution of the enumerated space.'),
+        design_ref='DESIGN.md section 4 C03',
+        note='Own copy of the drilling-cost coefficients; user-fixed status read from the generated input, not from model flags.'),
+    'C04': dict(
+        engine='xplore',
+        technique='bounded exhaustive input-space exploration (construction years x lifetimes x price/PTC/carbon/add-on deviations) against an independent cash-flow assembly and metric definitions',
+        category='exploration',
+        text=('Cash-flow series, cumulative sum, NPV (both conventions), IRR residual, VIR, MOIC and payback window recomputed '
+              'independently for every execution, including the add-on project series; report N/A rule checked on the text.'),
+        design_ref='DESIGN.md section 4 C04',
+        note='IRR interpreted in the labelled unit (percent).'),
 }
 
 
@@ -45,6 +71,7 @@ def manifest():
             'enable': 'checks export GEOPHIRES_X_VERIF=1 (bin/check) and import /repo/src directly; no build step',
             'baseline_off_cmd': BASELINE,
             'source_commits': ['b900803'],
+            'fix_commits': ['83ef652'],
             'add_only': True,
         },
         'engines': [
